@@ -31,6 +31,8 @@ pub struct PanicSite {
 
 static HOOK: Once = Once::new();
 
+const GENERIC_SITES: [&str; 1] = ["automerge/src/types.rs:464"];
+
 pub fn install_panic_hook() {
     HOOK.call_once(|| {
         let prev = std::panic::take_hook();
@@ -51,7 +53,39 @@ pub fn install_panic_hook() {
             } else {
                 "<non-string panic>".to_string()
             };
+            // a few panic locations are shared helpers (OpId::new unwraps the narrowing of a
+            // counter): the site then also names the first caller outside that file, so that a
+            // listed finding at one caller does not hide a new one at another
+            let location = if GENERIC_SITES.contains(&location.as_str()) {
+                let bt = std::backtrace::Backtrace::force_capture().to_string();
+                let own_file = location.rsplit_once(':').map(|x| x.0).unwrap_or("").to_string();
+                let mut caller = None;
+                for line in bt.lines() {
+                    let line = line.trim();
+                    if let Some(rest) = line.strip_prefix("at ") {
+                        if let Some((_, rel)) = rest.rsplit_once("/rust/") {
+                            if (rel.starts_with("automerge/src") || rel.starts_with("hexane/src")) && !rel.starts_with(&own_file) {
+                                // file:line:col -> file:line
+                                let mut parts = rel.split(':');
+                                let f = parts.next().unwrap_or("");
+                                let l = parts.next().unwrap_or("");
+                                caller = Some(format!("{}:{}", f, l));
+                                break;
+                            }
+                        }
+                    }
+                }
+                match caller {
+                    Some(c) => format!("{}<-{}", location, c),
+                    None => location,
+                }
+            } else {
+                location
+            };
             let quiet = QUIET.with(|q| *q.borrow());
+            if std::env::var("VERIF_BT").is_ok() {
+                eprintln!("panic at {}: {}\n{}", location, message, std::backtrace::Backtrace::force_capture());
+            }
             LAST_PANIC.with(|p| {
                 *p.borrow_mut() = Some(PanicSite {
                     location,
